@@ -87,10 +87,7 @@ func (n *Nodis) ExpirePX(key string, milliseconds int64) int64 {
 			v = 0
 			return nil
 		}
-		if meta.key.Expiration == 0 {
-			meta.key.Expiration = time.Now().UnixMilli()
-		}
-		meta.key.Expiration += milliseconds
+		meta.key.Expiration = time.Now().UnixMilli() + milliseconds
 		n.signalModifiedKey(key, meta)
 		n.notify(func() []patch.Op {
 			return []patch.Op{{Type: patch.OpTypeExpire, Data: &patch.OpExpire{Key: key, Expiration: meta.key.Expiration}}}
@@ -136,7 +133,7 @@ func (n *Nodis) ExpireXX(key string, seconds int64) int64 {
 			v = 0
 			return nil
 		}
-		meta.key.Expiration += seconds * 1000
+		meta.key.Expiration = time.Now().UnixMilli() + seconds*1000
 		n.signalModifiedKey(key, meta)
 		n.notify(func() []patch.Op {
 			return []patch.Op{{Type: patch.OpTypeExpire, Data: &patch.OpExpire{Key: key, Expiration: meta.key.Expiration}}}
@@ -159,14 +156,16 @@ func (n *Nodis) ExpireLT(key string, seconds int64) int64 {
 			v = 0
 			return nil
 		}
-		ms := seconds * 1000
-		if meta.key.Expiration > time.Now().UnixMilli()-ms {
-			meta.key.Expiration -= ms
+		deadline := time.Now().UnixMilli() + seconds*1000
+		if deadline < meta.key.Expiration {
+			meta.key.Expiration = deadline
 			n.signalModifiedKey(key, meta)
 			n.notify(func() []patch.Op {
 				return []patch.Op{{Type: patch.OpTypeExpire, Data: &patch.OpExpire{Key: key, Expiration: meta.key.Expiration}}}
 			})
+			return nil
 		}
+		v = 0
 		return nil
 	})
 	return v
@@ -180,13 +179,9 @@ func (n *Nodis) ExpireGT(key string, seconds int64) int64 {
 		if !meta.isOk() {
 			return nil
 		}
-		now := time.Now().UnixMilli()
-		if meta.key.Expiration == 0 {
-			meta.key.Expiration = now
-		}
-		ms := seconds * 1000
-		if meta.key.Expiration < now+ms {
-			meta.key.Expiration += ms
+		deadline := time.Now().UnixMilli() + seconds*1000
+		if meta.key.Expiration < deadline {
+			meta.key.Expiration = deadline
 			n.signalModifiedKey(key, meta)
 			n.notify(func() []patch.Op {
 				return []patch.Op{{Type: patch.OpTypeExpire, Data: &patch.OpExpire{Key: key, Expiration: meta.key.Expiration}}}
